@@ -90,7 +90,7 @@ def impl_extract(case, binf, size, n_jobs, out):
         with warnings.catch_warnings():
             warnings.simplefilter("ignore")
             we.extract_wfs_cbin(
-                binf, out, ss, sc, sch, h=h,
+                binf, out, ss, sc, sch, h=(None if case.get("h_none") else h),
                 reader_kwargs={"ns": ns, "nc": nc + 1, "nsync": 1, "dtype": "float32", "fs": 30000},
                 max_wf=case["maxwf"], trough_offset=case["to"], spike_length_samples=case["L"],
                 chunksize_samples=size, n_jobs=n_jobs, preprocess_steps=[], seed=case["seed"])
@@ -113,8 +113,15 @@ def impl_extract(case, binf, size, n_jobs, out):
             obs["channels"] = np.load(out / "waveforms.channels.npz")["channels"].astype(np.int64)
             obs["templates"] = np.load(out / "waveforms.templates.npy")
             wl = we.WaveformsLoader(out, trough_offset=case["to"])
-            labels = None if case["labels"] is None else np.array(case["labels"])
-            indices = None if case["indices"] is None else np.array(case["indices"])
+            labels, indices = case["labels"], case["indices"]
+            lrep, irep = case.get("lab_repr", "array"), case.get("ind_repr", "array")
+            if labels is not None:
+                labels = {"array": np.array(labels), "list": list(labels), "tuple": tuple(labels),
+                          "int32": np.array(labels, dtype=np.int32)}[lrep]
+            if indices is not None:
+                indices = {"array": np.array(indices), "list": list(indices),
+                           "scalar": indices[0] if len(indices) == 1 else list(indices),
+                           "npint": np.int64(indices[0]) if len(indices) == 1 else np.array(indices, dtype=np.uint8)}[irep]
             wfs, info, chans = wl.load_waveforms(labels=labels, indices=indices)
             obs["ld_rows"] = [int(x) for x in info.index]
             obs["ld_wfs"] = np.array(wfs)
@@ -400,7 +407,10 @@ def gen_case(rng, cid, big=None):
         spikes.sort(key=lambda s: s[0])
     return {"id": cid, "ns": ns, "nc": nc, "geom": geom, "to": to, "L": L, "maxwf": maxwf, "spikes": spikes,
             "seed": rng.randrange(1, 10 ** 6), "labels": labels, "indices": indices, "sizes": sizes,
-            "dt": dt, "strided": rng.random() < 0.3, "bin_str": rng.random() < 0.3}
+            "dt": dt, "strided": rng.random() < 0.3, "bin_str": rng.random() < 0.3,
+            "lab_repr": rng.choice(["array", "list", "tuple", "int32"]),
+            "ind_repr": rng.choice(["array", "list", "scalar", "npint"]),
+            "h_none": bool(big == {"version": 1})}
 
 
 def gen_chanidx_case(rng):
@@ -426,7 +436,7 @@ def enc_chanidx(c):
 # --------------------------------------------------------------------------
 def case_desc(case, size, n_jobs):
     d = {k: case[k] for k in ("ns", "nc", "geom", "to", "L", "maxwf", "spikes", "seed", "labels", "indices")}
-    for k in ("dt", "strided", "bin_str"):
+    for k in ("dt", "strided", "bin_str", "lab_repr", "ind_repr", "h_none", "out_of_domain", "malformed"):
         d[k] = case.get(k)
     d["size"], d["n_jobs"] = size, n_jobs
     return d
@@ -448,7 +458,10 @@ def run_case(ctx, case, work, jobs_for, inputs, outputs, descs, stats):
     for k, size in enumerate(case["sizes"]):
         n_jobs = jobs_for(k)
         desc = case_desc(case, size, n_jobs)
-        obs = impl_extract(case, binf, size, n_jobs, d / ("o%d" % k))
+        # every 4th recording writes into one output directory shared by all of them (never cleaned):
+        # stale files of an earlier extraction must not leak into a later one
+        outdir = (Path(work) / "shared_out") if case["id"] % 4 == 1 else d / ("o%d" % k)
+        obs = impl_extract(case, binf, size, n_jobs, outdir)
         nrun += 1
         stats["n_jobs"][n_jobs] = stats["n_jobs"].get(n_jobs, 0) + 1
         nchunks = -(-ns // size)
@@ -459,8 +472,10 @@ def run_case(ctx, case, work, jobs_for, inputs, outputs, descs, stats):
             if nvalid_total == 0:
                 ctx.fail("extract_wfs_cbin raised %s although every unit should simply receive 0 waveforms"
                          % obs["error"], desc, {"kind": "exception", "class": "no_valid_spike"})
-            elif not expected_bad:
+            elif not expected_bad and not case.get("out_of_domain"):
                 ctx.fail("extract_wfs_cbin raised %s" % obs["error"], desc, {"kind": "exception", "class": "other"})
+        elif case.get("out_of_domain"):
+            stats["out_of_domain_no_exception"] = stats.get("out_of_domain_no_exception", 0) + 1
         else:
             for kind, what in oracle(case, obs, data):
                 ctx.fail(what, desc, {"kind": kind})
@@ -472,7 +487,8 @@ def run_case(ctx, case, work, jobs_for, inputs, outputs, descs, stats):
         inputs.append(enc_inp(case, size, obs["picks"]))
         outputs.append(enc_obs(obs))
         descs.append(desc)
-        shutil.rmtree(d / ("o%d" % k), ignore_errors=True)
+        if outdir.name != "shared_out":
+            shutil.rmtree(outdir, ignore_errors=True)
     shutil.rmtree(d, ignore_errors=True)
     return nrun
 
@@ -497,6 +513,30 @@ def malformed_cases(rng, cid0):
     return out
 
 
+def out_of_domain_cases(rng, cid0, n):
+    """chunk size < trough_offset with >= 2 chunks: outside the property's quantifier (chunk sizes
+    500..10000, trough_offset 42) and outside the theorems' hypothesis; only the model's faithfulness
+    (negative slice start wraps) is compared.  The first one is the Coq witness exSmallChunk."""
+    out = [{"id": cid0, "ns": 100, "nc": 2, "geom": [[0, 0], [0, 20]], "to": 10, "L": 16, "maxwf": 2,
+            "spikes": [[12, 1, 0]], "seed": 1, "labels": None, "indices": None, "sizes": [8],
+            "dt": ["int64", "int64", "int64"], "strided": False, "bin_str": False, "h_none": False,
+            "out_of_domain": True}]
+    for j in range(1, n):
+        c = gen_case(rng, cid0 + j)
+        c["L"] = rng.randrange(12, 40)
+        c["to"] = rng.randrange(9, c["L"])
+        c["ns"] = rng.randrange(60, 400)
+        size = rng.randrange(max(2, c["ns"] // 60 + 1), c["to"])
+        c["sizes"] = [size]
+        hi = c["ns"] - (c["L"] - c["to"])
+        times = sorted(rng.choice([rng.randrange(c["to"] + 1, max(c["to"] + 2, hi)), size + rng.randrange(0, c["to"]),
+                                   rng.randrange(0, c["ns"])]) for _ in range(rng.randrange(1, 6)))
+        c["spikes"] = [[t, rng.choice([1, 2]), rng.randrange(c["nc"])] for t in times]
+        c["labels"], c["indices"], c["out_of_domain"] = None, None, True
+        out.append(c)
+    return out
+
+
 def run(ctx):
     common.proof_obligations(ctx, whitelist=[])
     rng = ctx.rng
@@ -508,6 +548,10 @@ def run(ctx):
         c["sizes"] = c["sizes"][:2]
         cases.append(c)
     cases += malformed_cases(rng, len(cases))
+    cases += out_of_domain_cases(rng, len(cases), 12 if ctx.thorough() else 5)
+    for c in cases:          # a recording extracted with seed=None: single configuration (picks differ between runs)
+        if c["id"] % 9 == 4 and not c.get("out_of_domain"):
+            c["seed"], c["sizes"] = None, c["sizes"][:1]
     par_every = 3 if ctx.thorough() else 5      # every k-th case uses worker processes
 
     inputs, outputs, descs = [], [], []
@@ -563,6 +607,13 @@ def run(ctx):
             "unsigned_cluster_or_channel_dtype": sum(1 for c in cases if c["dt"][1][0] == "u" or c["dt"][2][0] == "u"),
             "non_contiguous_inputs": sum(1 for c in cases if c["strided"]),
             "bin_file_as_str": sum(1 for c in cases if c["bin_str"]),
+            "out_of_domain_chunk_lt_trough_offset": sum(1 for c in cases if c.get("out_of_domain")),
+            "out_of_domain_no_exception": stats.get("out_of_domain_no_exception", 0),
+            "seed_none": sum(1 for c in cases if c["seed"] is None),
+            "shared_output_dir": sum(1 for c in cases if c["id"] % 4 == 1),
+            "geometry_from_reader_h_none": sum(1 for c in cases if c.get("h_none")),
+            "loader_label_repr": {k: sum(1 for c in cases if c.get("lab_repr") == k) for k in ("array", "list", "tuple", "int32")},
+            "loader_index_repr": {k: sum(1 for c in cases if c.get("ind_repr") == k) for k in ("array", "list", "scalar", "npint")},
             "default_window_42_128": sum(1 for c in cases if (c["to"], c["L"]) == (42, 128)),
             "full_probe_cases": sum(1 for c in cases if c["nc"] == 384),
             "units_with_no_valid_spike": sum(1 for c in cases for u in {s[1] for s in c["spikes"]}
